@@ -214,6 +214,24 @@ func c10OneGeometry(c *Ctx, k c10Case, sample bool) {
 	for i, cl := range classes {
 		pool[i] = GenFrame(rng, g, cl)
 	}
+	if g.BitsStored < g.BitsAllocated && g.BitsAllocated == 16 {
+		// frames whose unused high bits are not zero (overlay planes / garbage above BitsStored):
+		// only "the caller's buffer is left unmodified" is asserted for them
+		f := GenFrame(rng, g, 0)
+		hi := byte(0xff) << uint(maxInt(0, g.BitsStored-8))
+		if g.BitsStored < 8 {
+			hi = 0xff
+		}
+		for i := 1; i < len(f); i += 2 {
+			f[i] |= byte(rng.Intn(256)) & hi
+		}
+		before := append([]byte(nil), f...)
+		c.R.Oracle("c10_input_unmodified")
+		_, _ = Encode(reg, g, [][]byte{f}, nil)
+		if !bytes.Equal(before, f) {
+			c.R.Fail("oracle", "c10_input_unmodified", "c10:"+ts.Short+":input-modified:high-bits", "Encode changed the caller's frame buffer (frame with non-zero bits above BitsStored)", in(map[string]interface{}{"frame": Hex(before)}))
+		}
+	}
 	if g.W*g.H*g.SPP >= 2000 { // the dedicated large geometry: skewed difference categories
 		pool[2], pool[3] = GenSkewedFrame(rng, g), GenSkewedFrame(rng, g)
 	}
@@ -747,4 +765,11 @@ func shortClass(s string) string {
 		return "none"
 	}
 	return "plain"
+}
+
+func maxInt(a, b int) int {
+	if a > b {
+		return a
+	}
+	return b
 }
